@@ -35,6 +35,7 @@ func init() {
 			ruleSanitiserSites(r)
 			ruleParserAttempts(r, []string{"JSONExtractor", "LogfmtExtractor", "UnpackExtractor", "RegexpExtractor", "PatternExtractor"})
 			ruleUnpackValidationScope(r)
+			ruleJSONPathStateFresh(r)
 		},
 	})
 }
